@@ -55,6 +55,9 @@ struct Case {
     stray: Vec<usize>,
     /// a frame of a later exchange is waiting in the transport behind the burst (a further read would get it)
     trailing: bool,
+    /// ... or it arrived in the same read as the last replies of the burst (it sits in the receive buffer behind
+    /// them, e.g. the answer to a call that was pipelined behind the streaming one)
+    trailing_in_burst: bool,
     /// give the stream up (drop it) after this many items and keep using the items obtained so far (0 = read on to
     /// the end of the stream)
     stop_after: usize,
@@ -62,12 +65,12 @@ struct Case {
 
 impl Case {
     fn replay(&self) -> Value {
-        json!({"monitor": "c11", "replies": self.replies.iter().map(|r| json!([r.0, r.1, r.2])).collect::<Vec<_>>(), "chunk_of": self.chunk_of, "pendings": self.pendings, "via_proxy_stream": self.via_proxy_stream, "seed": self.seed, "warmup": self.warmup, "esc": self.esc, "stray": self.stray, "trailing": self.trailing, "stop_after": self.stop_after})
+        json!({"monitor": "c11", "replies": self.replies.iter().map(|r| json!([r.0, r.1, r.2])).collect::<Vec<_>>(), "chunk_of": self.chunk_of, "pendings": self.pendings, "via_proxy_stream": self.via_proxy_stream, "seed": self.seed, "warmup": self.warmup, "esc": self.esc, "stray": self.stray, "trailing": self.trailing, "trailing_in_burst": self.trailing_in_burst, "stop_after": self.stop_after})
     }
     fn hash(&self) -> u64 {
         let mut h = fnv(format!("{:?}{:?}", self.replies, self.chunk_of).as_bytes());
         h = fnv_mix(h, self.pendings as u64 * 2 + self.via_proxy_stream as u64);
-        h = fnv_mix(h, fnv(format!("{:?}{}{}", self.stray, self.trailing, self.stop_after).as_bytes()));
+        h = fnv_mix(h, fnv(format!("{:?}{}{}{}", self.stray, self.trailing, self.stop_after, self.trailing_in_burst).as_bytes()));
         fnv_mix(h, self.seed ^ (self.warmup as u64) << 32 ^ (self.esc as u64) << 63)
     }
 }
@@ -169,6 +172,8 @@ struct Damage {
     after_drop: bool,
 }
 
+const LATER_FRAME: &[u8] = b"{\"parameters\":{\"tag\":999999,\"text\":\"a reply of a later exchange, long enough to cover the first items of the burst: 0123456789 0123456789 0123456789 0123456789 0123456789\"}}\0";
+
 /// Returns Ok(number of re-reads) or the first damaged item.
 fn execute(case: &Case) -> Result<(usize, bool), Damage> {
     let wire = new_wire(0);
@@ -185,12 +190,15 @@ fn execute(case: &Case) -> Result<(usize, bool), Damage> {
                     }
                 }
             }
+            if case.trailing && case.trailing_in_burst && c + 1 == nchunks {
+                b.extend_from_slice(LATER_FRAME);
+            }
             for _ in 0..case.pendings {
                 w.push(Rx::Pending);
             }
             w.push(Rx::Bytes(b));
         }
-        if case.trailing {
+        if case.trailing && !case.trailing_in_burst {
             w.push(Rx::Bytes(b"{\"parameters\":{\"tag\":999999,\"text\":\"a reply of a later exchange, long enough to cover the first items of the burst: 0123456789 0123456789 0123456789 0123456789 0123456789\"}}\0".to_vec()));
         }
     }
@@ -349,6 +357,7 @@ pub fn run(cfg: &Cfg) -> Report {
             esc: r["esc"].as_bool().unwrap_or(false),
             stray: r["stray"].as_array().map(|a| a.iter().map(|x| x.as_u64().unwrap() as usize).collect()).unwrap_or_default(),
             trailing: r["trailing"].as_bool().unwrap_or(false),
+            trailing_in_burst: r["trailing_in_burst"].as_bool().unwrap_or(false),
             stop_after: r["stop_after"].as_u64().unwrap_or(0) as usize,
         };
         let g = if case.chunk_of.iter().all(|c| *c == 0) { if case.warmup == 0 { "available" } else { "same" } } else { "separate" };
@@ -418,7 +427,7 @@ pub fn run(cfg: &Cfg) -> Report {
         // escapes make the encoded text up to 3.4 times as long as the decoded one
         let total: usize = replies.iter().map(|r| r.1 * if esc { 4 } else { 1 } + 70).sum();
         // same-read group: make sure the buffer can take the whole burst in one read
-        let warmup = if group == "same" { total + 600 } else if group == "available" { 0 } else if rng.chance(1, 3) { rng.range(1, 3000) } else { 0 };
+        let warmup = if group == "same" { total + 900 } else if group == "available" { 0 } else if rng.chance(1, 3) { rng.range(1, 3000) } else { 0 };
         // every other case of the same-read group: stray terminators inside the burst and / or a frame of a later
         // exchange waiting in the transport
         let (stray, trailing) = if group == "same" && i % 2 == 1 {
@@ -439,7 +448,7 @@ pub fn run(cfg: &Cfg) -> Report {
         } else {
             0
         };
-        let mut case = Case { replies, chunk_of, pendings: if group == "available" { 0 } else { rng.below(2) }, via_proxy_stream, seed: cfg.seed ^ i, warmup, esc, stray, trailing, stop_after };
+        let mut case = Case { replies, chunk_of, pendings: if group == "available" { 0 } else { rng.below(2) }, via_proxy_stream, seed: cfg.seed ^ i, warmup, esc, stray, trailing, trailing_in_burst: trailing && i % 4 == 3, stop_after };
         if group == "available" {
             // The whole burst is in the transport before the first item is requested, but the receive buffer
             // is fresh, so zlink takes it in buffer-sized pieces. zlink keeps reading until a piece ends on a
@@ -473,7 +482,7 @@ pub fn run(cfg: &Cfg) -> Report {
             rep.count("cases_with_stray_terminators_inside_the_burst");
         }
         if case.trailing {
-            rep.count("cases_with_a_later_frame_waiting_in_the_transport");
+            rep.count(if case.trailing_in_burst { "cases_with_a_later_frame_in_the_buffer_behind_the_burst" } else { "cases_with_a_later_frame_waiting_in_the_transport" });
         }
         if case.stop_after > 0 {
             rep.count("cases_where_the_stream_is_given_up_early_and_the_items_are_used_afterwards");
